@@ -133,7 +133,7 @@ def check(ctx):
     # (c,d) replay on the real encoders / decoder, random executions
     trace = ctx.path("trace.ndjson")
     nrand = 1500 if quick else 20000
-    info = drive(binp, ["--scenarios", scn, "--random", str(nrand), "--huge", "3" if quick else "12", "--seed", str(ctx.seed),
+    info = drive(binp, ["--scenarios", scn, "--random", str(nrand), "--huge", "9" if quick else "40", "--seed", str(ctx.seed),
                         "--sample-every", "60" if quick else "400"], trace)
     # (e) TLC validates the recorded executions against the contract (known-finding action switched by known_findings.jsonl)
     kf = c.kf_switches("C18", [KF])
